@@ -26,15 +26,15 @@ from ..kernel import SRC, HarnessError
 PID = "C16"
 LEVEL = "model_checking"
 RULE = ("laws: root dataclasses with 1 field of every type tree of depth<=2 (168) and 2 fields over T(1) x leaves, x 4 key-map variants {none, renamed, keyword-like, "
-        "case-fold-colliding}, x instance menus (<=3 values per node), each on a pristine converter; history: all operation sequences of length<=3 over 10 "
-        "operations (structure/unstructure of 5 types) on one converter vs a pristine one (state = set of types the converter has met); serialiser: all graphs "
+        "case-fold-colliding}, x instance menus (<=3 values per node), each on a pristine converter; history: all operation sequences of length<=3 over 12 "
+        "operations (structure/unstructure of 6 types, two of which share one qualified name) on one converter vs a pristine one (state = set of types the converter has met); serialiser: all graphs "
         "over <=2 nodes (thorough 3) of kind dataclass/list/dict with slots in {None, 7, node}. non-trivial = distinct (type, key-map, instance) / histories / graphs")
 ASSUMPTIONS = [
     "a pristine converter is obtained by executing src/pyopenapi_gen/core/cattrs_converter.py under a fresh module name",
     "field naming in errors: the message must contain the python name or the wire key of the nearest enclosing dataclass field",
     "wrong-typed leaves are only injected where cattrs does not coerce (int, float, datetime, date, Enum, nested dataclass); str/bool/bytes coercions are not demanded",
 ]
-BOUND = {"quick": "672 one-field roots + 640 two-field roots; 1110 histories; 2-node graphs", "thorough": "depth-3 trees (2720 roots) ; 3-node graphs with one slot"}
+BOUND = {"quick": "672 one-field roots + 640 two-field roots; 1884 histories; 2-node graphs", "thorough": "depth-3 trees (2720 roots) ; 3-node graphs with one slot"}
 CHUNK = 8
 
 
@@ -87,7 +87,7 @@ def cases(tier, seed):
         for t1 in T1:
             for t2 in leaves:
                 out.append({"kind": "law", "fields": [t1, t2], "keymap": km})
-    ops = list(range(10))
+    ops = list(range(12))
     for k in (1, 2, 3):
         for seq in itertools.product(ops, repeat=k):
             out.append({"kind": "history", "seq": list(seq)})
@@ -305,12 +305,16 @@ def history_types(conv):
     HasUnion = mk("HasUnion", [("u", typing.Union[Inner, Other])])
     Renamed = meta(mk("Renamed", [("class_", str), ("when", typing.Optional[datetime.datetime], F(default=None))]), {"class": "class_", "When": "when"})
     MapHolder = mk("MapHolder", [("m", Wrapper)])
+    # a DIFFERENT type that happens to have the same module and qualified name as Inner (regenerated / reloaded models module)
+    InnerV2 = meta(mk("Inner", [("page_size", int), ("total", int, F(default=0))]), {"page-size": "page_size", "Total": "total"})
+    assert InnerV2 is not Inner and InnerV2.__qualname__ == Inner.__qualname__
     types = [
         (Outer, {"inner": {"pageSize": 1}, "items": [{"pageSize": 2}]}, Outer(Inner(1), [Inner(2)])),
         (MapHolder, {"m": {"k": {"pageSize": 3}}}, MapHolder(Wrapper({"k": Inner(3)}))),
         (HasUnion, {"u": {"pageSize": 4}}, HasUnion(Inner(4))),
         (Renamed, {"class": "c", "When": "2020-01-02T03:04:05+00:00"}, Renamed("c", datetime.datetime(2020, 1, 2, 3, 4, 5, tzinfo=UTC))),
         (Inner, {"pageSize": 5}, Inner(5)),
+        (InnerV2, {"page-size": 6, "Total": 7}, InnerV2(6, 7)),
     ]
     return types, (Wrapper, s_wrapper, u_wrapper)
 
@@ -328,7 +332,7 @@ def apply_op(conv, types, op):
 
 
 OPNAMES = ["structure(Outer)", "unstructure(Outer)", "structure(MapHolder)", "unstructure(MapHolder)", "structure(HasUnion)", "unstructure(HasUnion)",
-           "structure(Renamed)", "unstructure(Renamed)", "structure(Inner)", "unstructure(Inner)"]
+           "structure(Renamed)", "unstructure(Renamed)", "structure(Inner)", "unstructure(Inner)", "structure(Inner')", "unstructure(Inner')"]
 
 
 def run_history(case):
